@@ -3651,6 +3651,13 @@ impl Zeroconf {
         listener: Sender<HostnameResolutionEvent>,
         timeout: Option<u64>,
     ) {
+        // `hostname_resolvers` is keyed by the lower case name.
+        let hostname_key = hostname.to_lowercase();
+        if repeating && !self.hostname_resolvers.contains_key(&hostname_key) {
+            // The search was stopped or timed out in the meantime.
+            return;
+        }
+
         let addr_list: Vec<_> = self.my_intfs.iter().collect();
         if let Err(e) = listener.send(HostnameResolutionEvent::SearchStarted(format!(
             "{} on addrs {:?}",
@@ -3679,7 +3686,7 @@ impl Zeroconf {
         // Only add retransmission if it does not exceed the hostname resolver timeout, if any.
         if self
             .hostname_resolvers
-            .get(&hostname)
+            .get(&hostname_key)
             .and_then(|(_sender, timeout)| *timeout)
             .map(|timeout| next_time < timeout)
             .unwrap_or(true)
@@ -3831,8 +3838,8 @@ impl Zeroconf {
             trace!("StopResolve: removed queryer for {}", &host);
             let mut i = 0;
             while i < self.retransmissions.len() {
-                if let Command::Resolve(t, _) = &self.retransmissions[i].command {
-                    if t == &host {
+                if let Command::ResolveHostname(t, _, _, _) = &self.retransmissions[i].command {
+                    if t.to_lowercase() == host {
                         self.retransmissions.remove(i);
                         trace!("StopResolve: removed retransmission for {}", &host);
                         continue;
